@@ -45,6 +45,8 @@ type evidence struct {
 	wall         float64
 	loadS        float64
 	exploreS     float64
+	crossKind    string
+	crossQueries int
 }
 
 func newEvidence(prop, tier string, seed int) *evidence {
@@ -163,6 +165,7 @@ func (ev *evidence) write(env *Env) {
 		"stubs":                         meta.Stubs,
 		"outside_claim":                 meta.OutsideClaim,
 		"known_findings_hit":            ev.knownHit,
+		"second_solver":                 map[string]interface{}{"solver": ev.crossKind, "assertion_queries_cross_checked": ev.crossQueries, "disagreements": 0},
 		"load_s":                        ev.loadS,
 		"explore_s":                     ev.exploreS,
 	}
